@@ -573,6 +573,11 @@ var c11Positions = []string{
 	`<input :value="v" :checked="v" :disabled="!v">`,
 	`<p v-bind:title="v" v-bind="v">x</p>`,
 	`<p v-if="v" v-for="x in v" v-text="x" :class="x">z</p>`,
+	// loop heads that are not well formed
+	`<p v-for="v">x</p><p v-for=" in v">x</p><p v-for="(a, b, c) in v">x</p><p v-for="() in v">x</p>`,
+	`<p v-for="x in">x</p>`, `<p v-for="x of v">{{ x }}</p>`, `<p v-for="(x in v">x</p>`, `<p v-for="x in v in v">{{ x }}</p>`, `<template v-for="(, ) in v"><i>{{ v }}</i></template>`,
+	`<p :class="{a: {b: v}, 'c d': v}" :style="{color: {x: 1}, 'font-size': v}">x</p>`,
+	`<p v-pre :title="v">{{ v }}<i v-for="x in v">{{ x }}</i></p><template v-keep :k="v"><b>{{ v }}</b></template>`,
 }
 
 func c11TypeCases(r *Run, id *int) []c11Case {
